@@ -93,6 +93,8 @@ pub enum Op {
     BlockingProbe,
     /// arm a delayed_exec, halt the actor before the delay is over, wait: the body never runs
     ExecAfterHalt,
+    /// arm a delayed_exec whose body is still running when the actor is halted: the body never completes
+    ExecBodyAfterHalt,
 }
 
 #[derive(Clone, Debug, PartialEq, Eq, Hash, Serialize, Deserialize)]
@@ -200,6 +202,23 @@ impl Message for Arm {
 struct ArmDelayed(Duration);
 impl Message for ArmDelayed {
     type Response = ();
+}
+/// register a delayed_exec whose body takes a while and records that it ran to its end
+struct ArmExecLong(Duration, Duration);
+impl Message for ArmExecLong {
+    type Response = ();
+}
+impl Handler<ArmExecLong> for Counter {
+    async fn handle(&mut self, ctx: &mut Context<Self>, m: ArmExecLong) {
+        let body = m.1;
+        ctx.delayed_exec(
+            async move {
+                hannibal::runtime::sleep(body).await;
+                EXEC_RAN.fetch_add(1, std::sync::atomic::Ordering::SeqCst);
+            },
+            m.0,
+        );
+    }
 }
 /// register a delayed_exec whose body records that it ran
 struct ArmExec(Duration);
@@ -755,6 +774,19 @@ async fn run_program(p: &Program) -> Record {
                 }
                 None => "skip".into(),
             },
+            Op::ExecBodyAfterHalt => match &target {
+                Some(a) => {
+                    ended = true;
+                    let before = EXEC_RAN.load(std::sync::atomic::Ordering::SeqCst);
+                    let s = g!(a.send(ArmExecLong(Duration::from_millis(10), Duration::from_millis(400))));
+                    hannibal::runtime::sleep(Duration::from_millis(120)).await;
+                    let e = g!(a.clone().halt());
+                    hannibal::runtime::sleep(Duration::from_millis(600)).await;
+                    let ran = EXEC_RAN.load(std::sync::atomic::Ordering::SeqCst) != before;
+                    format!("{s}/{e}/{}", if ran && s == "Ok(())" && e == "Ok(())" { "ran-after-halt" } else { "clean" })
+                }
+                None => "skip".into(),
+            },
             Op::ExecAfterHalt => match &target {
                 Some(a) => {
                     ended = true;
@@ -885,6 +917,9 @@ mod generate {
             }
             if id % 40 == 33 {
                 ops.push(Op::ExecAfterHalt);
+            }
+            if id % 40 == 13 {
+                ops.push(Op::ExecBodyAfterHalt);
             }
             if id % 40 == 27 {
                 let at = (id as usize / 40) % 3;
